@@ -74,6 +74,7 @@ def decomposed(draw, kind, tier='quick', max_subs=3, profile=None):
         'late_inline': draw(st.integers(0, 2)) if draw(st.integers(0, 3)) == 0 else None,
         'extra': None,
         'name_twin': draw(st.integers(0, 5)) == 0,
+        'odd_name': draw(st.sampled_from([None, None, None, None, None, 'time', 'time', 'results', 'value', 'rob', 'dataset'])),
     }
     if draw(st.integers(0, 5)) == 0:
         # a named requirement whose text also stands written out inside a requirement defined before it
@@ -172,6 +173,9 @@ def sub_names(case):
     names = ['sub%d' % i for i in range(len(case['subs']))]
     if case.get('name_twin') and names:
         names[0] = 'ok'           # next to a requirement 'is_ok' with the same text (see modular_texts)
+    if case.get('odd_name') and names:
+        # a legal identifier that an implementation may use as a key of its own ('time' is the time column of a data set)
+        names[-1] = case['odd_name']
     return names
 
 
